@@ -40,6 +40,10 @@ Fixpoint snapshot (mc:machine) {struct mc} : rnode -> list nat -> list (list nat
                        | _, _ => []
                        end) (act rn).
 
+(* is_flag_active<F>() and is_flag_active<F, AND>() of the root for the flags 0 .. n-1 *)
+Definition flags_snapshot (ops:child_ops) (rn:rnode) (n:nat) : list (bool * bool) :=
+  map (fun f => (co_flag_or ops rn f, co_flag_and ops rn f)) (seqn 0 n).
+
 Fixpoint run_ops (cf:cfg) (root:machine) (ops:child_ops) (fuel:nat) (rn:rnode) (l:list op)
   : list (list titem * list (list nat * list nat)) :=
   match l with
